@@ -8,6 +8,13 @@ CONFIG = {
         "env": {"quick": {"VERIF_C15_LEAF": 1200, "VERIF_C15_LABEL": 250, "VERIF_C15_STATE": 100},
                 "thorough": {"VERIF_C15_LEAF": 40000, "VERIF_C15_LABEL": 8000, "VERIF_C15_STATE": 3000}},
         "timeout": {"quick": 600, "thorough": 3000},
+    }, {
+        # tracking-mode histories (on/off/on with restarts): persisted trie root vs root over the account tables
+        "name": "ledger", "pkg": "./ledger/", "run": "^TestVerifC15Memo$",
+        "files": ["ledger/zz_verif_c15_test.go"],
+        "util": [("ledger", "ledger")],
+        "env": {"quick": {"VERIF_C15_HIST": 4}, "thorough": {"VERIF_C15_HIST": 40}},
+        "timeout": {"quick": 900, "thorough": 3000},
     }],
     "rule": "pairs of inputs run through the REAL builders (AccountHashBuilderV6, ResourcesHashBuilderV6, KvHashBuilderV6), the real "
             "ledgercore.MakeLabel (V6/V7/current makers) and, for small states, the real merkletrie root over the real leaves. Families: "
@@ -18,7 +25,12 @@ CONFIG = {
             "exactly one component (msgpack width boundaries of the totals, swapped digests, label format); states differing in one entry, "
             "inserted in different orders. The model (SHA-512/256 in Gallina) must reproduce every leaf / label byte for byte; spec_ok "
             "(different entries => different leaves / labels, HashKind byte = class, Go-level data equality = encoding equality) is "
-            "evaluated on the implementation's outputs only. A case is non-trivial when the two inputs differ; distinct = distinct case lines.",
+            "evaluated on the implementation's outputs only. A case is non-trivial when the two inputs differ; distinct = distinct case lines. "
+            "Second harness (package ledger): real tracker registry + SQLite tracker DB driven through histories of node starts with catchpoint "
+            "tracking on/off (on/off/on, off/on, on/off/off/on, on/off/on/off/on, ...) with two forks whose accounts diverge mid-history; after every "
+            "start/commit the accounts round and hash round are compared with the Coq memo model, at the end the PERSISTED balances-trie root must "
+            "equal the root of a fresh trie over the real leaves of all rows of the account tables (spec_ok when the last start had tracking on), and "
+            "the two forks (different tables) must have different labels. Non-trivial memo case: a commit with tracking off is followed by a start with tracking on.",
     "exhaustive": {"quick": False, "thorough": False},
     "explanation": "theorems hold for every hash function H and all addresses / indices / encodings / keys / values / state sizes; "
                    "'except through a hash collision' is an explicit disjunct naming the colliding pre-images (no injectivity assumed). "
@@ -36,6 +48,8 @@ CONFIG = {
         "avm-abi apps.MakeBoxKey, ledger/ledgercore/catchpointlabel.go (buffer() of the three makers, MakeLabel incl. decimal/base32 "
         "rendering), go-codec reflection encoding of ledgercore.AccountTotals, as Gallina in coq/model/CatchpointHash.v",
         "not modelled (inputs of the model): IsAsset()/IsApp() of a ResourcesData, msgp encodings of account/resource data, the trie root",
+        "modelled: ledger/catchpointtracker.go commitRound (hash-round update) and initializeHashes (reset / rebuild / adopt) as "
+        "coq/model/CatchpointMemo.v over abstract tables/trie; accountsUpdateBalances correctness is the premise apply_ok (C14)",
         "tested only: decimal/base32 rendering of the label string (byte-exact on every label case; ParseCatchpointLabel is its inverse in Go)",
     ],
 }
